@@ -123,7 +123,13 @@ def step(cfg, obj, q, g, a, m, dt=None):
         return np.asarray(obj.update(q, g, a, **kd), dtype=float)
     if f in ("ROLEQ", "Fourati"):
         return np.asarray(obj.update(q, g, a, m, **kd), dtype=float)
+    if f in ("Complementary", "FKF"):
+        raise BatchOnly(f)
     raise KeyError(f)
+
+
+class BatchOnly(Exception):
+    """the class offers no one-sample update: only its Batch actions are replayed"""
 
 
 def validity(cfg, out, n):
